@@ -5,7 +5,10 @@ Property theorems only (helpers: Proofs/Lemmas/C07Tok.lean, C07Parse.lean, C07Qu
 All statements quantify over every byte string, every oracle (`cx.compileOK`, `cx.isSpaceHi`),
 every state of the error tracker and both tokenizer modes.
 -/
-import Proofs.Lemmas.C07Quote
+import Proofs.Lemmas.C07Balance
+import Proofs.Lemmas.C07GoQuote
+import Proofs.Lemmas.C07Offs
+import Proofs.Lemmas.C07WF
 
 namespace C07
 open Proc.Tok Proc.ParseFilter
@@ -42,11 +45,10 @@ theorem quote_expressible (cx : Ctx) (m : Bool) (s rest : Bytes) (e : ErrSt) :
     simp
   rw [hshape, h, hu]
 
-/-- **quote_expressible_partial** (strconv.Quote): if the body of `strconv.Quote s` consists of
-items and unquotes back to `s` — both facts are validated for the model `goQuote` and for the real
-strconv on every `quote` case of the correspondence run, not proved here (they need the UTF-8
-encode/decode round trip) — then `strconv.Quote s` tokenizes to exactly one quoted word carrying `s`. -/
-theorem quote_expressible_partial (cx : Ctx) (m : Bool) (isPrint : Nat → Bool) (s rest : Bytes) (e : ErrSt)
+/-- auxiliary: if the body of `strconv.Quote s` consists of items and unquotes back to `s`, then
+`strconv.Quote s` tokenizes to exactly one quoted word carrying `s` (both hypotheses are theorems:
+`items_quoteBody`, `unquote_goQuote`; see `go_quote_expressible`). -/
+theorem quote_expressible_of_roundtrip (cx : Ctx) (m : Bool) (isPrint : Nat → Bool) (s rest : Bytes) (e : ErrSt)
     (hItems : Items (quoteBody isPrint (s.length + 1) s))
     (hRound : unquote (goQuote isPrint s) = some s) :
     next cx m (goQuote isPrint s ++ rest) e = mkTok cx (goQuote isPrint s ++ rest) kQ s rest e := by
@@ -64,21 +66,95 @@ example : Items (quoteBody (fun r => 0x20 ≤ r && r < 0x7f) 6 [34, 92, 10, 0xff
       (Items.plain (by decide) (by decide) (Items.plain (by decide) (by decide) Items.nil))))))
   · decide +kernel
 
-/-- **bare_word_ok**: a non-empty word none of whose runes is white space or one of `( ) : @ ,`,
-not starting with `-`, `*` or `"` (nor, in value position, with `/`), and different from `AND` and
-`OR`, tokenizes to itself. -/
-theorem bare_word_ok (cx : Ctx) (m : Bool) (c : UInt8) (t : Bytes) (e : ErrSt)
+/-- **go_quote_expressible** (the real `strconv.Quote`): for EVERY byte string `s`,
+`strconv.Quote(s)` — modelled rune by rune as in the Go source: `\"` `\\` always escaped, printable
+runes copied, `\a \b \f \n \r \t \v`, `\xHH` for other control characters and for bytes that are
+not valid UTF-8, `\uHHHH` / `\UHHHHHHHH` for other non-printable runes — tokenizes, in key and value
+position and whatever follows, to exactly one quoted-word token carrying `s`.  `strconv.IsPrint` is
+an arbitrary parameter; the only fact used about it is that the newline is not printable
+(a raw newline is the one byte `strconv.Unquote` refuses inside double quotes).  Rests on the proved
+round trip `unquote (goQuote isPrint s) = some s` (UTF-8 decode/encode lemmas in C07Utf8). -/
+theorem go_quote_expressible (cx : Ctx) (m : Bool) (isPrint : Nat → Bool) (h10 : isPrint 10 = false)
+    (s rest : Bytes) (e : ErrSt) :
+    next cx m (goQuote isPrint s ++ rest) e = mkTok cx (goQuote isPrint s ++ rest) kQ s rest e :=
+  quote_expressible_of_roundtrip cx m isPrint s rest e (items_quoteBody isPrint h10 _ s) (unquote_goQuote isPrint h10 s)
+
+/-- `strconv.Unquote(strconv.Quote(s)) = s` for the models -/
+theorem go_quote_roundtrip (isPrint : Nat → Bool) (h10 : isPrint 10 = false) (s : Bytes) :
+    unquote (goQuote isPrint s) = some s := unquote_goQuote isPrint h10 s
+
+theorem next_nil (cx : Ctx) (m : Bool) (e : ErrSt) : next cx m [] e = mkTok cx [] 0 [] [] e := by
+  simp [next, nextF]
+
+theorem next_colon (cx : Ctx) (m : Bool) (r : Bytes) (e : ErrSt) :
+    next cx m (cColon :: r) e = mkTok cx (cColon :: r) cColon [cColon] r e := by
+  have h : isStartOpB cColon = true := by decide
+  simp [next, nextF, h]
+
+theorem exprF_quoted_term (cx : Ctx) (isPrint : Nat → Bool) (h10 : isPrint 10 = false) (k v : Bytes) (n : Nat) :
+    exprF cx (n + 4) (goQuote isPrint k ++ cColon :: goQuote isPrint v) none =
+      ⟨.lit k v (offOf cx (goQuote isPrint k ++ cColon :: goQuote isPrint v)), [], none⟩ := by
+  have t1 := go_quote_expressible cx false isPrint h10 k (cColon :: goQuote isPrint v) none
+  have t2 := next_colon cx false (goQuote isPrint v) none
+  have t3 : next cx true (goQuote isPrint v) none = mkTok cx (goQuote isPrint v) kQ v [] none := by
+    simpa using go_quote_expressible cx true isPrint h10 v [] none
+  have t4 := next_nil cx false none
+  have k1 : (kQ == cLP) = false := by decide
+  have k2 : (kQ == cDash) = false := by decide
+  have k3 : (kQ == cStar) = false := by decide
+  have k4 : isWord kQ = true := by decide
+  have k5 : (cColon != cColon) = false := by decide
+  have k6 : isValue kQ = true := by decide
+  have hm : matchF cx (n + 1) (goQuote isPrint k ++ cColon :: goQuote isPrint v) none =
+      ⟨.lit k v (offOf cx (goQuote isPrint k ++ cColon :: goQuote isPrint v)), [], none⟩ := by
+    simp only [matchF, t1, mkTok, k1, k2, k3, k4, t2, k5, t3, k6, Bool.false_eq_true, if_false, if_true]
+    simp [mkMatch, kQ, kR]
+  have e1 : ((0 : UInt8) == kA) = false := by decide
+  have e2 : ((0 : UInt8) == cLP || (0 : UInt8) == cDash || (0 : UInt8) == cStar || (0 : UInt8) == kW || (0 : UInt8) == kQ) = false := by decide
+  have e3 : ((0 : UInt8) == cRP || (0 : UInt8) == kO || (0 : UInt8) == 0) = true := by decide
+  have e4 : ((0 : UInt8) == kO) = false := by decide
+  have ha : andExprF cx (n + 2) (goQuote isPrint k ++ cColon :: goQuote isPrint v) none =
+      ⟨.lit k v (offOf cx (goQuote isPrint k ++ cColon :: goQuote isPrint v)), [], none⟩ := by
+    simp only [andExprF, hm, andLoop, t4, mkTok, e1, e2, e3, Bool.false_eq_true, if_false, if_true, finish]
+  simp only [exprF, exprLoop, ha, t4, mkTok, e4, Bool.false_eq_true, if_false, List.nil_append, finish]
+
+/-- **quoted_term_denotes**: for ANY key `k` and ANY value `v` (all byte strings) the filter
+`strconv.Quote(k) + ":" + strconv.Quote(v)` parses, and its tree is the single literal match of key
+`k` against value `v` — the expression denotes exactly those strings. -/
+theorem quoted_term_denotes (cx : Ctx) (isPrint : Nat → Bool) (h10 : isPrint 10 = false) (k v : Bytes)
+    (hn : cx.n = (goQuote isPrint k ++ cColon :: goQuote isPrint v).length) :
+    parseFilter cx (goQuote isPrint k ++ cColon :: goQuote isPrint v) = .ok (.lit k v 0) := by
+  have hfuel : fuelFor (goQuote isPrint k ++ cColon :: goQuote isPrint v) =
+      (5 * (goQuote isPrint k ++ cColon :: goQuote isPrint v).length + 2) + 4 := by unfold fuelFor; omega
+  have hoff : offOf cx (goQuote isPrint k ++ cColon :: goQuote isPrint v) = 0 := by simp [offOf, hn]
+  unfold parseFilter
+  rw [hfuel, exprF_quoted_term cx isPrint h10 k v _]
+  have t4 := next_nil cx false none
+  have e0 : ((0 : UInt8) != 0) = false := by decide
+  simp only [endCheck, t4, mkTok, e0, Bool.false_eq_true, if_false, hoff]
+
+/-- **bare_word_ok** (full strength): a non-empty word `c :: t` none of whose runes is white space
+or one of `( ) : @ ,`, not starting with `-`, `*` or `"` (nor, in value position, with `/`), and
+different from `AND` and `OR`, followed by ANY delimiter as the code has it — end of text, or a
+rune `r` with `unicode.IsSpace(r) || isOp(r)` (`Delim`) — tokenizes to itself and leaves exactly
+the delimiter and what follows.  The only fact used about the white-space oracle: U+FFFD is not
+white space (so a delimiter cannot begin with a UTF-8 continuation byte). -/
+theorem bare_word_ok (cx : Ctx) (m : Bool) (c : UInt8) (t rest : Bytes) (e : ErrSt)
+    (hFFFD : cx.isSpaceHi runeError = false)
     (hop : isStartOpB c = false) (hq : c ≠ cQuote) (hsl : m = true → c ≠ cSlash)
-    (hr : allRunes (fun r => !(isSpaceRune cx r || isOpR r)) (t.length + 2) (c :: t) = true)
-    (hA : c :: t ≠ wAND) (hO : c :: t ≠ wOR) :
-    next cx m (c :: t) e = mkTok cx (c :: t) kW (c :: t) [] e := by
+    (hr : allRunes (fun r => !stopRune cx r) (t.length + 1) (c :: t) = true)
+    (hA : c :: t ≠ wAND) (hO : c :: t ≠ wOR) (hd : Delim cx rest) :
+    next cx m (c :: t ++ rest) e = mkTok cx (c :: t ++ rest) kW (c :: t) rest e := by
+  have hc := delim_notCont cx hFFFD hd
   have hsz := decodeRune_size c t
+  have hdec : decodeRune (c :: (t ++ rest)) = decodeRune (c :: t) := by
+    simpa using decodeRune_append c t rest hc
   have hr1 : (isSpaceRune cx (decodeRune (c :: t)).1 || isOpR (decodeRune (c :: t)).1) = false := by
     simp only [allRunes, Bool.and_eq_true, Bool.not_eq_true'] at hr
-    exact hr.1
-  have hsp : isSpaceLen cx (c :: t) = 0 := by
+    simpa [stopRune] using hr.1
+  have hsp : isSpaceLen cx (c :: (t ++ rest)) = 0 := by
     simp only [Bool.or_eq_false_iff] at hr1
-    simp only [isSpaceLen]
+    simp only [isSpaceLen, hdec]
     split
     · rename_i h20
       have : c = 0x20 := by simpa using h20
@@ -90,12 +166,19 @@ theorem bare_word_ok (cx : Ctx) (m : Bool) (c : UInt8) (t : Bytes) (e : ErrSt)
     cases m with
     | false => rfl
     | true => simpa using hsl rfl
-  have hsplit := bareSplit_all cx (t.length + 2) (c :: t) (by simp) hr
-  simp only [next, nextF, hop, hsp, hre, List.length_cons]
-  simp only [bareWord, List.length_cons, hsplit]
+  have hsplit := bareSplit_delim cx rest hd hc (t.length + 1) (c :: t) (by simp) hr
+    ((c :: (t ++ rest)).length + 1) (by simp; omega)
+  simp only [List.cons_append] at hsplit ⊢
+  simp only [next, nextF, hop, hsp, hre]
+  simp only [bareWord, hsplit]
   simp [hq, hA, hO]
 
-example : allRunes (fun r => !(isSpaceRune ⟨0, fun _ => true, fun _ => false⟩ r || isOpR r)) 5 [0xC3, 0xA9, 45, 42] = true := by
+/-- instances of `Delim`: end of text, an ASCII blank, an operator, a multi-byte space rune -/
+example (cx : Ctx) : Delim cx [] ∧ Delim cx (0x20 :: [97]) ∧ Delim cx (cColon :: [97]) ∧ Delim cx (9 :: []) :=
+  ⟨Or.inl rfl, Or.inr (by simp [stopRune, decodeRune, isSpaceRune]), Or.inr (by simp [stopRune, decodeRune, isSpaceRune, isOpR, cColon]),
+   Or.inr (by simp [stopRune, decodeRune, isSpaceRune])⟩
+
+example : allRunes (fun r => !stopRune ⟨0, fun _ => true, fun _ => false⟩ r) 4 [0xC3, 0xA9, 45, 42] = true := by
   decide +kernel
 
 /-! ## totality and error positions -/
@@ -158,6 +241,74 @@ theorem error_offset_in_range (cx : Ctx) (q : Bytes) (err : Err) (hn : cx.n = q.
       simp at h
       exact fin _ hE (by rw [hx, h])
     · simp at h
+
+/-- **semantic_error_offset_in_range**: the errors of `NewFilter` and of
+`(*ProjectionParser).Parse` — syntax errors and the semantic rejections (`.config` in a filter,
+empty key, unknown order, fixed order on `.config`, `.unit` in a projection), which report the
+`Off` / `KeyOff` / `OrderOff` stored in the parse tree — are positioned inside the text.
+The one stored offset that can lie beyond the text, `OrderOff = KeyOff + len(key)` of a field
+without `@` whose quoted key holds invalid UTF-8 (each bad byte becomes the 3-byte U+FFFD), belongs
+to order `first`, which no rejection reports (`FieldOK`). -/
+theorem semantic_error_offset_in_range (cx : Ctx) (q : Bytes) (err : Err) (hn : cx.n = q.length) :
+    (newFilter cx q = .error err → 0 ≤ err.off ∧ err.off ≤ q.length) ∧
+    (Proc.ParseProj.parse cx q = .error err → 0 ≤ err.off ∧ err.off ≤ q.length) := by
+  have conv : InR cx err.off → 0 ≤ err.off ∧ err.off ≤ (q.length : Int) := by
+    intro h; simp only [InR, hn] at h; exact h
+  constructor
+  · intro h
+    unfold newFilter at h
+    generalize hp : parseFilter cx q = pr at h
+    cases pr with
+    | error e =>
+      simp at h; rw [← h]
+      exact (error_offset_in_range cx q e hn).1 hp
+    | ok t =>
+      simp only at h
+      have hoffs : OffsIn cx t := by
+        unfold parseFilter at hp
+        have ho := (parser_offs cx (fuelFor q)).1 q none (by omega)
+        generalize exprF cx (fuelFor q) q none = r at hp ho
+        dsimp only at hp
+        split at hp
+        · simp at hp
+        · simp at hp; rw [← hp]; exact ho
+      cases hc : checkFilter t with
+      | none => rw [hc] at h; simp at h
+      | some x =>
+        rw [hc] at h; simp at h; rw [← h]
+        have := checkFilter_inR cx hoffs hc
+        simp only [InR, hn] at this; exact this
+  · intro h
+    unfold Proc.ParseProj.parse at h
+    generalize hp : Proc.ParseProj.parseProjection cx q = pr at h
+    cases pr with
+    | error e =>
+      simp at h; rw [← h]
+      exact (error_offset_in_range cx q e hn).2 hp
+    | ok fs =>
+      simp only at h
+      have hok : ∀ f, f ∈ fs → FieldOK cx f := by
+        unfold Proc.ParseProj.parseProjection at hp
+        have ho := projLoop_fieldsOK cx (q.length + 1) [] q none (by omega) (by intro f hf; simp at hf)
+        generalize Proc.ParseProj.projLoop cx (q.length + 1) [] q none = r at hp ho
+        obtain ⟨rf, rr, re⟩ := r
+        dsimp only at hp ho
+        split at hp
+        · simp at hp
+        · simp at hp; rw [← hp]; exact ho
+      cases hc : Proc.ParseProj.checkFields fs with
+      | none => rw [hc] at h; simp at h
+      | some x =>
+        rw [hc] at h; simp at h; rw [← h]
+        obtain ⟨f, hf, hcf⟩ := checkFields_some hc
+        have := checkField_inR cx (hok f hf) hcf
+        simp only [InR, hn] at this; exact this
+
+/-- the corner noted above is real: a quoted key of two invalid bytes (4 source bytes) unquotes to
+6 bytes, so the stored `OrderOff` is 6 > 4 = len — with order `first` -/
+example : (match Proc.ParseProj.parseProjection ⟨4, fun _ => true, fun _ => false⟩ [34, 0x80, 0x80, 34] with
+    | .ok [f] => f.key == [0xEF, 0xBF, 0xBD, 0xEF, 0xBF, 0xBD] && f.order == oFirst && decide (f.orderOff = 6)
+    | _ => false) = true := by decide +kernel
 
 /-! ## rejections
 
@@ -382,5 +533,134 @@ theorem unterminated_quote_text_rejected (cx : Ctx) (r : Bytes) (h : scanQuote r
   obtain ⟨he, hk⟩ := unterminated_quote_rejected cx false r none h
   obtain ⟨x, hx⟩ := Option.isSome_iff_exists.mp he
   exact ⟨x, first_token_error_rejects cx _ x hx hk⟩
+
+/-! ## the token stream: balance of accepted texts, errors anywhere in the text
+
+`Lex cx δ st q ks st' q'` (Proofs/Lemmas/C07Lex.lean) is the deterministic token stream of a
+text: tokens are read with `next` in the mode of the current state of the syntax's mode machine
+(`stepF`: key mode; value mode for the one token after `:`; value mode inside a parenthesised value
+list — `stepP`: key mode throughout), each token error-free.  Parentheses inside quoted words and
+regexps are not tokens, so balance is stated on the kinds of the stream. -/
+
+theorem endCheck_none {cx : Ctx} {q : Bytes} {e : ErrSt} (h : endCheck cx q e = none) : e = none ∧ AtEnd cx q := by
+  unfold endCheck at h
+  dsimp only at h
+  split at h
+  · have := recErr_isSome cx (next cx false q e).cur .unexpected (next cx false q e).err
+    rw [h] at this; simp at this
+  · rename_i hk
+    have he := next_e_none h
+    subst he
+    exact ⟨rfl, ne_of_bne hk, h⟩
+
+/-- **accepted_implies_balanced**: a text accepted by the filter parser (resp. the projection
+parser) is, from its first byte to its end, an error-free token stream whose parentheses are
+balanced (never more `)` than `(` so far, equal numbers at the end). -/
+theorem accepted_implies_balanced (cx : Ctx) (q : Bytes) :
+    (∀ t, parseFilter cx q = .ok t →
+      ∃ ks qend, Lex cx stepF .K q ks .K qend ∧ AtEnd cx qend ∧ Balanced ks) ∧
+    (∀ fs, Proc.ParseProj.parseProjection cx q = .ok fs →
+      ∃ ks qend, Lex cx stepP .K q ks .K qend ∧ AtEnd cx qend ∧ Balanced ks) := by
+  constructor
+  · intro t h
+    unfold parseFilter at h
+    have hl := (parser_lex cx (fuelFor q)).1 q
+    generalize exprF cx (fuelFor q) q none = r at h hl
+    dsimp only at h
+    split at h
+    · simp at h
+    · rename_i hend
+      obtain ⟨hre, hat⟩ := endCheck_none hend
+      obtain ⟨ks, hlex, hseg⟩ := hl hre
+      exact ⟨ks, r.rest, hlex, hat, hseg.balanced⟩
+  · intro fs h
+    unfold Proc.ParseProj.parseProjection at h
+    have hl := projLoop_lex cx (q.length + 1) [] q
+    generalize Proc.ParseProj.projLoop cx (q.length + 1) [] q none = r at h hl
+    obtain ⟨rf, rr, re⟩ := r
+    dsimp only at h hl
+    split at h
+    · simp at h
+    · rename_i hend
+      obtain ⟨hre, hat⟩ := endCheck_none hend
+      obtain ⟨ks, hlex, hseg⟩ := hl hre
+      exact ⟨ks, rr, hlex, hat, hseg.balanced⟩
+
+example : Balanced [cLP, kW, cColon, kW, cRP] ∧ ¬ Balanced [cLP, cLP, cStar, cRP] ∧ ¬ Balanced [cRP, cLP] := by
+  refine ⟨by unfold Balanced; decide, by unfold Balanced; decide, by unfold Balanced; decide⟩
+
+/-- **reached_error_rejected**: if the token stream of a text reaches, error-free, a position
+where the next token (in the mode the syntax prescribes there) is in error, the text is rejected
+— whatever precedes or follows.  (Contrapositive of `accepted_implies_balanced` + determinism.) -/
+theorem reached_error_rejected (cx : Ctx) (q p : Bytes) (ks : List UInt8) (st : St)
+    (herr : (next cx st.mode p none).err ≠ none) :
+    (Lex cx stepF .K q ks st p → ∃ err, parseFilter cx q = .error err) ∧
+    (Lex cx stepP .K q ks st p → ∃ err, Proc.ParseProj.parseProjection cx q = .error err) := by
+  constructor
+  · intro hl
+    cases hp : parseFilter cx q with
+    | error err => exact ⟨err, rfl⟩
+    | ok t =>
+      obtain ⟨ks2, qend, hl2, hat, _⟩ := (accepted_implies_balanced cx q).1 t hp
+      exact absurd (lex_det hl herr hl2 hat) id
+  · intro hl
+    cases hp : Proc.ParseProj.parseProjection cx q with
+    | error err => exact ⟨err, rfl⟩
+    | ok fs =>
+      obtain ⟨ks2, qend, hl2, hat, _⟩ := (accepted_implies_balanced cx q).2 fs hp
+      exact absurd (lex_det hl herr hl2 hat) id
+
+/-- **unterminated_quote_anywhere_rejected**: wherever the token stream reaches a quoted word
+without closing quote, the filter (resp. projection) is rejected. -/
+theorem unterminated_quote_anywhere_rejected (cx : Ctx) (q r : Bytes) (ks : List UInt8) (st : St)
+    (h : scanQuote r = none) :
+    (Lex cx stepF .K q ks st (cQuote :: r) → ∃ err, parseFilter cx q = .error err) ∧
+    (Lex cx stepP .K q ks st (cQuote :: r) → ∃ err, Proc.ParseProj.parseProjection cx q = .error err) := by
+  apply reached_error_rejected
+  have := (unterminated_quote_rejected cx st.mode r none h).1
+  intro h0; rw [h0] at this; simp at this
+
+/-- **unterminated_regexp_anywhere_rejected**: wherever the token stream reaches, in value
+position (after `:` or inside a value list), a `/` without top-level closing `/`, the filter is rejected. -/
+theorem unterminated_regexp_anywhere_rejected (cx : Ctx) (q r : Bytes) (ks : List UInt8) (st : St)
+    (hm : st.mode = true) (h : reScan r 0 0 = none) (hl : Lex cx stepF .K q ks st (cSlash :: r)) :
+    ∃ err, parseFilter cx q = .error err := by
+  refine (reached_error_rejected cx q (cSlash :: r) ks st ?_).1 hl
+  rw [hm]
+  have := (unterminated_regexp_rejected cx r none h).1
+  intro h0; rw [h0] at this; simp at this
+
+/-- leading blanks do not matter for where the stream is -/
+theorem same_space (cx : Ctx) (q : Bytes) : Same cx ((0x20 : UInt8) :: q) q := by
+  intro m e
+  have h1 : isStartOpB (0x20 : UInt8) = false := by decide
+  have h2 : isSpaceLen cx ((0x20 : UInt8) :: q) = 1 := by simp [isSpaceLen]
+  have : next cx m ((0x20 : UInt8) :: q) e = nextF cx m (q.length + 1) q e := by
+    simp [next, nextF, h1, h2]
+  rw [this]; rfl
+
+/-- non-vacuity: in `a:b "c` the stream reaches the unterminated `"c` after three tokens -/
+example : ∃ ks st, Lex ⟨7, fun _ => true, fun _ => false⟩ stepF .K [97, 58, 98, 0x20, 34, 99] ks st [34, 99] := by
+  refine ⟨_, _, Lex.cons (by decide +kernel) (by decide +kernel) (Lex.cons (by decide +kernel) (by decide +kernel)
+    (Lex.cons (by decide +kernel) (by decide +kernel) (Lex.nil ?_)))⟩
+  generalize hX : TokR.rest _ = X
+  have : X = [0x20, 34, 99] := by rw [← hX]; decide +kernel
+  rw [this]
+  exact same_space _ _
+
+/-- **accepted_tree_wellformed**: the tree of an accepted filter contains no `nil` node (Go's nil
+interface, which would make `NewFilter` panic) and every NOT node has exactly one operand (which
+`NewFilter`'s `subs[0]` relies on). -/
+theorem accepted_tree_wellformed (cx : Ctx) (q : Bytes) (t : Filter) (h : parseFilter cx q = .ok t) : WF t := by
+  unfold parseFilter at h
+  have hw := (parser_wf cx (fuelFor q)).1 q none
+  generalize exprF cx (fuelFor q) q none = r at h hw
+  dsimp only at h
+  split at h
+  · simp at h
+  · rename_i hend
+    simp at h
+    rw [← h]
+    exact hw (endCheck_none hend).1
 
 end C07
